@@ -153,13 +153,16 @@ def run_case(case):
                 ("dr.sum_weights2", cf.dr.sum_weights.sum_weights2, exp_w)]
 
     def cross():
-        cf = yaw.crosscorrelate(config, cat, unk, unk_rand=unk)[0]
+        # the reference randoms carry the same edge-valued redshifts: every catalog that is binned must follow the rule
+        rand = yawx.make_catalog(d + "/rand", ra, dec, z=z, w=w, pid=pid)
+        cf = yaw.crosscorrelate(config, cat, unk, unk_rand=unk, ref_rand=rand)[0]
         tot = np.zeros(npatch)
         for i in range(n):
             tot[pid[i]] += w[i] if w is not None else 1.0
         return [("dd.sum_weights1", cf.dd.sum_weights.sum_weights1, exp_w),
-                ("dd.sum_weights2", cf.dd.sum_weights.sum_weights2,
-                 np.tile(tot, (nbins, 1)))]
+                ("dd.sum_weights2", cf.dd.sum_weights.sum_weights2, np.tile(tot, (nbins, 1))),
+                ("rd.sum_weights1", cf.rd.sum_weights.sum_weights1, exp_w),
+                ("rr.sum_weights1", cf.rr.sum_weights.sum_weights1, exp_w)]
 
     def hist():
         h = yaw.HistData.from_catalog(cat, config)
